@@ -8,9 +8,12 @@ import json, os, shutil, subprocess, sys, time
 HERE = os.path.dirname(os.path.dirname(os.path.abspath(__file__)))
 sys.path.insert(0, HERE)
 from tools.mutations import MUTATIONS
+import glob, importlib
+for _f in sorted(glob.glob(os.path.join(HERE, "tools", "mutations_c*.py"))):
+    MUTATIONS = MUTATIONS + importlib.import_module("tools." + os.path.basename(_f)[:-3]).MUTATIONS
 
-WT = "/tmp/partitura_mut_wt"
-SCR = "/tmp/partitura_mut_scratch"
+WT = "/tmp/partitura_mut_wt_%d" % os.getpid()
+SCR = "/tmp/partitura_mut_scratch_%d" % os.getpid()
 
 def sh(*a, **k):
     return subprocess.run(a, stdout=subprocess.PIPE, stderr=subprocess.STDOUT, text=True, **k)
